@@ -183,7 +183,9 @@ class C01(Check):
                 elif ps != pm:
                     out.append((i, ps, pm, "root-block headers via NextBlock"))
             return out
-        return [Job("root-block headers", cases, corr=corr, judge_mode="judge:C01")]
+        sched = [(d, re.sub(r";fault=[^;]*", "", p)) for d, p in schedules(seed, [d for d, _ in cases[: max(600, len(cases) // 3)]])]
+        return [Job("root-block headers", cases, corr=corr, judge_mode="judge:C01"),
+                Job("streaming entry point under read schedules", sched, judge_mode="judge:C01")]
 
 
 reg(C01("C01"))
@@ -311,7 +313,7 @@ class C10(Check):
                    "determinism, tree/Source untouched, block joining and empty output for definitions are observed on the implementation by the oracle (pure model cannot exhibit mutation)"]
 
     def jobs(self, seed, tier):
-        ds = docs(seed, tier, quick=3000, thorough=150000)
+        ds = docs(seed, tier, quick=3000, thorough=150000) + raw_docs(seed, size(tier, 1500, 50000))
         cases = [(d, str((i * 7 + seed) % 30)) for i, d in enumerate(ds)]
         return [Job("tree -> HTML", cases, corr=tree_render_corr("html"), judge_mode="judge:C10")]
 
@@ -332,7 +334,7 @@ class C20(Check):
         cases = [(d, "0") for d in ds]
         canon = [(md, "") for md, _ in docgen.documents(seed, size(tier, 800, 30000), style="format")]
         return [Job("format of the implementation's tree", cases, corr=tree_render_corr("fmt"), judge_mode="judge:C20"),
-                Job("canonical documents round trip", canon, judge_mode="judge:C20rt")]
+                Job("canonical documents round trip", canon, judge_mode="judge:C20rt", shrinkable=False, mutate=lambda rng, c: c)]
 
 
 reg(C20("C20"))
@@ -344,9 +346,20 @@ RAW_TOKENS = [t.encode() for t in ["<", ">", "</", "/>", "<script>", "</script>"
                                         "<3 ", "<-", "< script>", "<script/", "<scriptx>", "<em>", "<p>", "`", "*", "<pre>", "</pre>", "\t", "> ", "- "]]
 
 
+RAW_NAMES = ["script", "style", "title", "textarea", "xmp", "iframe", "noembed", "noframes", "plaintext", "b", "div", "em", "p", "pre", "a"]
+
+
 def raw_docs(seed, n):
     rng = random.Random(seed ^ 0xc17)
-    return [gen.soup(rng, nmax=12, toks=RAW_TOKENS) for _ in range(n)]
+    out = []
+    for _ in range(n):
+        toks = list(RAW_TOKENS)
+        # element names with random letter case (each letter flipped independently), as start and end tags
+        for _ in range(6):
+            nm = "".join(c.upper() if rng.random() < 0.3 else c for c in rng.choice(RAW_NAMES))
+            toks += [("<%s>" % nm).encode(), ("</%s>" % nm).encode(), ("<%s " % nm).encode()]
+        out.append(gen.soup(rng, nmax=12, toks=toks))
+    return out
 
 
 class C17(Check):
@@ -601,7 +614,7 @@ class C08(Check):
     rule = DOC_RULE + "; each document under a read schedule (1-byte reads, empty reads, random caps, cuts after every CR / inside multi-byte characters and NUL runs, data returned with the final error or not) and, for 40 %, a fault after k bytes with one of two error values; plus inputs straddling the 8 KiB chunk size"
     obligations = [("stream", "ReaderProof", "readline_sim"), ("stream", "BPProof", "next_block_sim"), ("stream", "C08", "C08_stream_eq"), ("stream", "C08", "C08_fault"),
                    ("stream", "ReaderProof", "read_spec")]
-    assumptions = ["C08_stream_eq / C08_fault are proved for the stream-layer model (readline, NextBlock, makeRoot) over an arbitrary block machine satisfying three stated laws, for every input below the block-size limit, every read schedule and every fault point; the tie of that model to parse.go is the correspondence below (streaming implementation vs. in-memory model on the delivered prefix) plus the Read-call log",
+    assumptions = ["C08_stream_eq / C08_fault are proved for the stream-layer model (readline, NextBlock, makeRoot) over an arbitrary block machine satisfying three stated laws, for every input below the block-size limit, every read schedule and every fault point; the tie to parse.go is the correspondence of the concrete streaming model (main/Stream.v: the same readline under a scripted reader composed with the real block machine) with the implementation under the same schedule: blocks, trees, reference map, final error, its persistence, and the Read-call log",
                    "Extract and Rewrite are functions of the blocks, so equality of trees and reference map follows from equality of the blocks"]
 
     def jobs(self, seed, tier):
@@ -613,25 +626,17 @@ class C08(Check):
         cases = schedules(seed, ds)
 
         def corr(cases):
-            a = run.harness("stream", lines_of(cases))
-            pref = []
-            for c, p in cases:
-                m = re.search(r"fault=(\d+)", p)
-                k = min(int(m.group(1)), len(c)) if m else len(c)
-                pref.append(c[:k].hex())
-            b = run.model("full", pref)
+            ls = lines_of(cases)
+            a = run.harness("stream", ls)
+            b = run.model("stream", ls)
             out = []
             for i, (x, y) in enumerate(zip(a, b)):
-                xp = x.split("\t")
-                if xp[0] != y:
-                    out.append((i, xp[0], y, "blocks, trees and reference map: streaming implementation vs in-memory model on the delivered prefix"))
-                    continue
-                want = "EOF"
-                m = re.search(r"fault=(\d+):(E\d)", cases[i][1])
-                if m:
-                    want = m.group(2)
-                if len(xp) < 3 or xp[1] != "E:" + want or xp[2] != "X:%s,%s,%s" % (want, want, want):
-                    out.append((i, "\t".join(xp[1:3]), "E:" + want, "final error and its persistence"))
+                if x != y:
+                    xp, yp = x.split("\t"), y.split("\t")
+                    what = "blocks, trees and reference map"
+                    if len(xp) == 4 and len(yp) == 4:
+                        what = ["blocks, trees and reference map", "final error", "persistence of the final error", "Read-call log (capacity requested / bytes returned / error)"][[j for j in range(4) if xp[j] != yp[j]][0]]
+                    out.append((i, x[-1500:], y[-1500:], "streaming run under the schedule: " + what))
             return out
         return [Job("documents x schedules", cases, corr=corr, judge_mode="judge:C08")]
 
@@ -729,16 +734,20 @@ def policies(seed, ds):
         elif rng.random() < 0.15:
             parts.append("nopost")
         v = rng.random()
-        if v < 0.25:
+        if v < 0.2:
             parts.append("virt=root")
-        elif v < 0.45:
+        elif v < 0.35:
             parts.append("virt=rev")
+        elif v < 0.45:
+            parts.append("virt=childonly")
+        elif v < 0.55:
+            parts.append("virt=countonly")
         out.append((d, ";".join(p for p in parts if p != "prune=")))
     return out
 
 
 class C18(Check):
-    rule = DOC_RULE + "; each parsed tree under a callback policy: prune set by pre-visit number, abort point by post-visit number, nil Pre or nil Post, custom child functions presenting a virtual root over all root blocks or reversing every child list"
+    rule = DOC_RULE + "; each parsed tree under a callback policy: prune set by pre-visit number, abort point by post-visit number, nil Pre or nil Post, custom child functions presenting a virtual root over all root blocks or reversing every child list, or only one of ChildCount / Child supplied"
     obligations = [("walk", "W2P", "run_refines_spec"), ("walk", "W2C", "walk_cursors_ok"), ("walk", "W2V", "visit_once"), ("walk", "W2V", "tour_length"), ("main", "WalkG", "walk_is_spec")]
     assumptions = ["full on the model: the explicit-stack machine of walk.go (frames, post flags, cursor construction) equals the recursive traversal for every tree, every pair of callbacks over any user state, and every cursor satisfies the parent/index/nearest-block invariant; custom child functions are folded into the tree walked; the model is tied to walk.go by event traces on the implementation's trees under random policies"]
 
@@ -778,7 +787,7 @@ class C06(Check):
         cases = [(md, html.hex()) for md, html in docs_]
         hcases = [(md, "0") for md, _ in docs_]
         return [Job("serialised abstract documents", hcases, corr=two_sided("html", "html", ident, "HTML (default configuration)")),
-                Job("denotation", cases, judge_mode="judge:C06")]
+                Job("denotation", cases, judge_mode="judge:C06", shrinkable=False, mutate=lambda rng, c: c)]
 
     def extra_coverage(self, st):
         return {"explanation": "denotation oracle on the implementation plus model/implementation HTML correspondence on serialised abstract documents"}
